@@ -25,7 +25,7 @@ use crate::bucket::event_index::OpenEventIndex;
 use crate::bucket::partition_index::{OpenPartitionIndex, PartitionIndexRecord};
 use crate::bucket::segment::{
     BucketSegmentReader, BucketSegmentWriter, COMMIT_SIZE, EVENT_HEADER_SIZE, LongBytes, RawCommit,
-    RawEvent, RecordHeader, SEGMENT_HEADER_SIZE, ShortString,
+    RawEvent, Record, RecordHeader, SEGMENT_HEADER_SIZE, ShortString,
 };
 use crate::bucket::stream_index::{OpenStreamIndex, StreamIndexRecord};
 use crate::bucket::{BucketId, BucketSegmentId, PartitionId, SegmentKind};
@@ -314,12 +314,20 @@ impl Worker {
         let now = Instant::now();
         for &bucket_id in bucket_ids.iter() {
             if bucket_id_to_thread_id(bucket_id, bucket_ids, num_threads) == Some(thread_id) {
-                let (bucket_segment_id, writer) =
+                let (bucket_segment_id, mut writer) =
                     BucketSegmentWriter::latest(bucket_id, &dir, segment_size, compression)?;
                 let mut reader = BucketSegmentReader::open(
                     SegmentKind::Events.get_path(&dir, bucket_segment_id),
                     Some(writer.flushed_offset()),
                 )?;
+
+                // A crash can leave the events of a transaction without their commit record
+                // at the end of the segment. They were never acknowledged: drop them, so
+                // they are neither indexed nor followed by new records.
+                let committed_end = committed_end_offset(&mut reader)?;
+                if committed_end < writer.write_offset() {
+                    writer.set_len(committed_end)?;
+                }
 
                 let mut event_index = OpenEventIndex::open(
                     bucket_segment_id,
@@ -1244,6 +1252,32 @@ struct PendingIndex {
     stream_id: StreamId,
     stream_version: u64,
     offset: u64,
+}
+
+/// Returns the offset right after the last complete transaction of a segment.
+fn committed_end_offset(reader: &mut BucketSegmentReader) -> Result<u64, WriteError> {
+    let mut committed_end = SEGMENT_HEADER_SIZE as u64;
+    let mut pending_transaction_id = None;
+    let mut iter = reader.iter();
+    while let Some(record) = iter.next_record()? {
+        match record {
+            Record::Event(event) if get_uuid_flag(&event.transaction_id) => {
+                committed_end = event.offset + event.size;
+                pending_transaction_id = None;
+            }
+            Record::Event(event) => {
+                pending_transaction_id = Some(event.transaction_id);
+            }
+            Record::Commit(commit) => {
+                if pending_transaction_id == Some(commit.transaction_id) {
+                    committed_end = commit.offset + COMMIT_SIZE as u64;
+                }
+                pending_transaction_id = None;
+            }
+        }
+    }
+
+    Ok(committed_end)
 }
 
 fn bucket_id_to_thread_id(
